@@ -9,6 +9,7 @@ TRUSTED = [
     "translators/xlate_simd.py: regex extraction of loop ranges, `let` offsets and raw-pointer loads from every `unsafe fn` of simd.rs; the table intrinsic -> lanes read (_mm_loadu_ps 4, _mm256_loadu_ps 8, _mm512_loadu_ps 16, vld1q_f32 4); fails closed (untranslatable access -> translatorProblems, and the number of obligations must equal the number of `.as_ptr().add(` sites); usize overflow of `i * 32` etc. not modelled (slice lengths are < 2^59)",
     "translators/xlate_packed.py: extraction of PackedLevel0/visited-bitset index arithmetic; saturating_* translated as exact arithmetic",
     "fenced run (harness/src/mem.rs): in-binary allocator that ends every heap block at a PROT_NONE page; an over-read inside a Vec's spare capacity is not detected; validates the translator's reading of the kernels on lengths 0..N and drives the real HNSW index",
+    "Miri (thorough tier, corpus/C17/*_miri.rs through harness_miri/): an interpreter run on a few scenarios - a search aid for the pointer-arithmetic lint, not a proof",
     "not modelled (partial): that every dense id reaching an `_unchecked` accessor is < node count (graph-closure invariant of HNSW construction) — linted syntactically for neighbour ids, exercised by the fenced run; NEON kernels are translated and proved but cannot execute on this x86-64 host",
 ]
 
@@ -34,7 +35,47 @@ def op_lines(thorough, kernels):
         for d in dims:
             for (n, k, ef) in ([(0, 3, 8), (1, 1, 1), (37, 5, 24)] + ([(150, 10, 64), (400, 20, 200)] if thorough else [(90, 10, 48)] if d in (7, 13, 33) else [])):
                 lines.append("hnsw %s %d %d %d %d %d" % (metric, d, n, k, ef, d * 7 + n))
+    # forced graph degree M: the packed level-0 record is 1 + max(2M, 8) + dimension words rounded up to the record
+    # alignment; M with (cap + 1 + dimension) already aligned leaves NO padding behind the last record
+    ms = [4, 7, 8, 15, 16, 23, 31, 32, 47, 63, 64] + ([5, 6, 12, 24, 39, 48, 55] if thorough else [])
+    for m in ms:
+        for d in ([1, 2, 3, 14, 15] if thorough else [1, 2, 15]):
+            for (n, k, ef) in [(130, 10, 10000)] + ([(400, 10, 64)] if thorough else []):
+                lines.append("hnsw l2 %d %d %d %d %d %d" % (d, n, k, ef, d * 7 + n + m, m))
     return lines
+
+
+def miri_stage(rep):
+    """thorough tier: every corpus/C17/*_miri.rs is copied into harness_miri/tests/ and run under `cargo +nightly miri test`
+    against the CURRENT /repo/engine (pointer-arithmetic and aliasing rules the fenced native run cannot see)."""
+    import glob, shutil
+    hm = os.path.join(ROOT, "harness_miri")
+    tests = os.path.join(hm, "tests")
+    shutil.rmtree(tests, ignore_errors=True)
+    os.makedirs(tests)
+    names = []
+    for f in sorted(glob.glob(os.path.join(CORPUS, "C17", "*_miri.rs"))):
+        shutil.copy(f, tests); names.append(os.path.basename(f))
+    try:
+        shutil.copy("/repo/Cargo.lock", os.path.join(hm, "Cargo.lock"))
+    except OSError:
+        pass
+    t0 = time.time()
+    try:
+        rc, out, err = common.run(["cargo", "+nightly", "miri", "test", "--offline"], cwd=hm, timeout=5400,
+                                  env=dict(ENV, RUSTFLAGS="-C debug-assertions=off", MIRIFLAGS="-Zmiri-disable-isolation", CARGO_NET_OFFLINE="true"))
+    except subprocess.TimeoutExpired:
+        return {"scenarios": names, "outcome": "timeout (not counted)", "wall_s": round(time.time() - t0)}
+    log = out + err
+    ub = "Undefined Behavior" in log
+    if ub:
+        m = re.search(r"error: Undefined Behavior:[^\n]*", log)
+        p = rep.write_replay("miri_undefined_behaviour.log",
+                             "# engine=miri (cd harness_miri && RUSTFLAGS='-C debug-assertions=off' cargo +nightly miri test --offline; scenarios: %s)\n"
+                             "# ORACLE FAILURE on the implementation: %s\n%s\n" % (", ".join(names), m.group(0) if m else "Undefined Behavior", log[-6000:]))
+        rep.violation(p)
+    return {"scenarios": names, "outcome": "undefined behaviour" if ub else ("ok" if rc == 0 else "did not run (rc=%d): %s" % (rc, log[-300:])),
+            "wall_s": round(time.time() - t0)}
 
 
 def run(tier, seed, replay):
@@ -96,6 +137,7 @@ def run(tier, seed, replay):
             "details": {k: info.get(k) for k in ("errors", "errors_detail", "source_scan_hits", "axioms", "translator")},
             "search": "fenced run of every kernel wrapper on %d lengths and %d HNSW build/search scenarios: no fault" % (stats["kern"], stats["hnsw"])})
         rep.violation(p, no_input=True)
+    miri = miri_stage(rep) if thorough and not replay else {"skipped": "thorough tier only"}
     proof_coverage(rep, info, "python3 translators/xlate_simd.py && python3 translators/xlate_packed.py && cd lean && lake build %s && <#print axioms audit>" % MODULE, TRUSTED)
     rep.coverage.update({
         "programs": len(kernels),
@@ -106,10 +148,14 @@ def run(tier, seed, replay):
         "rule": "kern: each discovered `*_entry` kernel wrapper (ISAs %s) on two exact-size slices ending at a guard page, "
                 "every length 0..130 plus larger ones; hnsw: HnswVectorIndex built and searched through the public API for "
                 "dimensions that are and are not multiples of 4/8/16 under the three metrics, with wrong-dimension inserts and "
-                "queries that must be refused; any SIGSEGV/SIGBUS/panic is a failure" % ",".join(isas),
+                "queries that must be refused, plus forced graph degrees M 4..64 (incl. the M whose packed record has no padding) at "
+                "dimension 1, 2, 15 with wide beams; the harness is built with debug assertions, so every `get_unchecked` outside its "
+                "slice aborts (std's unsafe-precondition checks) even when the word read is still inside the allocation; any "
+                "SIGSEGV/SIGBUS/abort/panic is a failure" % ",".join(isas),
         "kernel_wrappers": kernels,
         "ops": stats,
         "translator_output": touts,
+        "miri": miri,
         "samples": lines[:2] + lines[-2:],
         "exhaustive": False,
         "harness_build_s": round(bsecs, 1),
